@@ -400,6 +400,8 @@ def check(case):
                 if T3.shape == want3.shape and np.any(good3) and not close(T3[good3], want3[good3], rtol=1e-8):
                     out.fail('guillot-closed-form@after-refused-point', 'after a refused point and its repair: max rel %.2e' % maxrel(T3[good3], want3[good3]))
             fpar['kappa_irr'][3](10.0 ** c['lk_ir'])
+            with np.errstate(all='ignore'):
+                np.asarray(tp.profile, dtype=float)          # back where the history started: evaluated at the drawn parameters
         except (CutError, InvalidModelException):
             pass
         # ---- history: the same profile object initialised again on another pressure grid of the same layer count and a
